@@ -131,10 +131,17 @@ func exploreItem(c *vf.Ctx, it item, idx int, race bool) {
 	// sequential reference: pool of size 1 (the zero pool, runs inline)
 	ref, rerr := it.b.run(it.N, tp.New(1, it.Buf))
 	refErr := ""
-	if rerr != nil {
+	if rerr != nil && !it.b.expectErr {
 		// a body that already fails sequentially would make the comparison vacuous
 		c.HarnessError(fmt.Sprintf("body %s (n=%d) fails sequentially: %v", it.Body, it.N, rerr))
 		return
+	}
+	if it.b.expectErr {
+		if rerr == nil {
+			c.HarnessError(fmt.Sprintf("body %s (n=%d) is designed to fail but succeeds sequentially", it.Body, it.N))
+			return
+		}
+		refErr = rerr.Error()
 	}
 	if len(ref) == 0 {
 		c.HarnessError(fmt.Sprintf("body %s (n=%d) has an empty outcome", it.Body, it.N))
@@ -497,12 +504,14 @@ func conformance(c *vf.Ctx) {
 		Runs     int                 `json:"runs"`
 		Mismatch []string            `json:"mismatch"`
 		Errors   []string            `json:"errors"`
+		Lost     int                 `json:"lost_errors_real_pool"`
 	}
 	if jerr := json.Unmarshal(outb, &ro); jerr != nil {
 		c.HarnessError(fmt.Sprintf("real-pool conformance run failed: %v %v %s", err, jerr, stderr.String()))
 		return
 	}
 	c.Count("conformance_real_pool_runs", int64(ro.Runs))
+	c.Count("conformance_real_pool_job_errors_lost_by_the_dependency", int64(ro.Lost))
 	nobs, nmodel := int64(0), int64(0)
 	for k, as := range ro.Probes {
 		set, ok := model[k]
